@@ -1,0 +1,106 @@
+//go:build verif
+
+package peers
+
+// Contracts for the deductive verifier in /verif (govc). Comments only; build tag "verif".
+//
+// C17. Lock order: pool.m is taken before the cool-down queue's mutex, never the other way round.
+// A ghost flag per lock says "held"; acquiring a lock requires that neither it nor a lock later in this
+// table is held. (One pool owns one queue; the flags abstract from which instance.)
+//@ lock pool.m $PoolLocked
+//@ lock timedQueue.Mutex $QueueLocked
+
+// The pool counts its active peers: activeCount is the number of peers whose status is active.
+// (countEq is the cardinality of a map's value class; every single-key update states its change.)
+
+//@ func (*pool).checkHasPeers
+//@   property C17
+//@   modifies p
+//@   ensures p.activeCount == old(p.activeCount) && p.statuses == old(p.statuses) && p.peersList == old(p.peersList) && p.cooldown == old(p.cooldown) && p.nextIdx == old(p.nextIdx) && p.cleanupThreshold == old(p.cleanupThreshold)
+//@   ensures p.hasPeer <==> p.activeCount > 0 || (old(p.hasPeer) && p.activeCount != 0)
+
+// (every listed peer has a status entry: add lists a peer only together with its status, cleanup
+// drops list entries and status entries together)
+//@ func (*pool).tryGet
+//@   property C17
+//@   requires !$PoolLocked && !$QueueLocked
+//@   requires forall i int :: 0 <= i && i < len(p.peersList) ==> has(p.statuses, p.peersList[i])
+//@   modifies p
+//@   ensures result1 ==> has(p.statuses, result0) && p.statuses[result0] == active
+//@   ensures p.activeCount == old(p.activeCount) && p.statuses == old(p.statuses)
+//@   ensures !$PoolLocked && !$QueueLocked
+
+//@ func (*timedQueue).push
+//@   property C17
+//@   requires !$QueueLocked
+//@   modifies q
+//@   modifies q.items
+//@   ensures !$QueueLocked && ($PoolLocked <==> old($PoolLocked))
+
+//@ func (*pool).putOnCooldown
+//@   property C17
+//@   requires !$PoolLocked && !$QueueLocked
+//@   requires p.activeCount == countEq(p.statuses, active) && p.cooldown != nil
+//@   modifies p
+//@   modifies p.statuses
+//@   modifies p.cooldown
+//@   modifies p.cooldown.items
+//@   ensures p.activeCount == countEq(p.statuses, active)
+//@   ensures !$PoolLocked && !$QueueLocked
+
+// The cool-down expiry callback takes the pool lock, so it must never run under the queue lock.
+//@ func (*pool).afterCooldown
+//@   property C17
+//@   requires !$PoolLocked && !$QueueLocked
+//@   requires p.activeCount == countEq(p.statuses, active)
+//@   modifies p
+//@   modifies p.statuses
+//@   ensures p.activeCount == countEq(p.statuses, active)
+//@   ensures !$PoolLocked && !$QueueLocked
+
+// The expiry callback (onPop, bound to the pool's afterCooldown in newPool) takes the pool lock:
+// releaseExpired calls it only after the queue lock has been released; releaseUnsafe, which runs under
+// the queue lock, calls nothing.
+//@ func (*timedQueue).releaseUnsafe
+//@   property C17
+//@   modifies q
+//@   modifies q.items
+//@   requires $QueueLocked && !$PoolLocked
+//@   param .onPop: requires !$PoolLocked && !$QueueLocked
+//@   ensures $QueueLocked && !$PoolLocked
+//@   loop 1: invariant $QueueLocked && !$PoolLocked
+
+//@ func (*timedQueue).releaseExpired
+//@   property C17
+//@   noframe
+//@   requires !$PoolLocked && !$QueueLocked
+//@   param .onPop: requires !$PoolLocked && !$QueueLocked
+//@   param .onPop: ensures !$PoolLocked && !$QueueLocked
+//@   loop 1: invariant !$PoolLocked && !$QueueLocked
+
+//@ func (*pool).add
+//@   property C17
+//@   noframe
+//@   requires !$PoolLocked && !$QueueLocked
+//@   requires p.activeCount == countEq(p.statuses, active)
+//@   modifies p
+//@   modifies p.statuses
+//@   modifies p.peersList
+//@   ensures p.activeCount == countEq(p.statuses, active)
+//@   loop 1: invariant p.activeCount == countEq(p.statuses, active) && p.statuses == old(p.statuses) && $PoolLocked && !$QueueLocked
+
+//@ func (*pool).cleanup
+//@   property C17
+//@   modifies p
+//@   modifies p.statuses
+//@   ensures countEq(p.statuses, active) == old(countEq(p.statuses, active)) && p.activeCount == old(p.activeCount) && p.statuses == old(p.statuses)
+//@   loop 1: invariant countEq(p.statuses, active) == old(countEq(p.statuses, active)) && p.activeCount == old(p.activeCount) && p.statuses == old(p.statuses) && p.peersList == old(p.peersList)
+
+//@ func (*pool).remove
+//@   property C17
+//@   requires !$PoolLocked && !$QueueLocked
+//@   requires p.activeCount == countEq(p.statuses, active)
+//@   modifies p
+//@   modifies p.statuses
+//@   ensures p.activeCount == countEq(p.statuses, active)
+//@   loop 1: invariant p.activeCount == countEq(p.statuses, active) && p.statuses == old(p.statuses) && $PoolLocked && !$QueueLocked
